@@ -2,8 +2,7 @@
 
 Sources: Network/NodalAnalysis/node_analysis.py, Network/NodalAnalysis/state_space_model.py, the three list-valued
 methods of Network (network.py: branches_connected_to, nodes_connected_to, branches_between) that gen_network.py leaves
-out, and (checked against a pinned text, not translated) the class LabelMapping and the function `filter` of
-label_mapping.py, whose meaning is hard-wired in the primitives mapping_* of Model/NetworkPrims.v / Model/MatrixPrims.v.
+out, and the class LabelMapping and the function `filter` of label_mapping.py (module py_label_mapping_m; see below).
 
 A typed, compositional Python -> Gallina translation in the style of gen_network.py (whose signature table is reused for
 every call into elements.py / network.py / label_mapping.py / transformers.py, so that those calls follow the source).
@@ -46,7 +45,53 @@ Guards (the model has neither aliasing nor mutation): an array is written into o
 same function and is not read in the loop that fills it; `x = y` for an array y is refused; the variables of a loop are
 unusable after it; a local read by a nested function must not be assigned once that function is in use.
 Not translated (named here, refused when used): node_analysis.calculate_node_voltages0 and DimensionError (unused by the
-library), NodalStateSpaceModel._one_vector (unused), the shape checks of sp.StateSpaceModel.__post_init__."""
+library), NodalStateSpaceModel._one_vector (unused), the shape checks of sp.StateSpaceModel.__post_init__.
+
+Additions made so that behaviour-preserving refactorings (harmless/H3, H4, H6) stay inside the subset.  Every one is an
+enumerated shape with a fixed Gallina meaning; everything else is still refused.
+  * FUNCTION VALUES (fun_value).  They occur only as ARGUMENTS: of a Callable parameter, of sorted(key=), filter, map and
+    label_mapping.filter.  A function value is: `lambda x1 ... xn: E`; the name of a nested def or of a translated
+    module-level function; a Callable parameter passed on; a bound method `self.m` of NodalStateSpaceModel / LabelMapping
+    (evaluating `self.m` has no effect; the value is the translated method applied to self).  Its parameter and result
+    types must be exactly the expected ones (no defaults, no *args).
+  * annotation `Callable[[T1, ..., Tn], R]` (typing.Callable) on a PARAMETER (as in gen_network.py, but here the function
+    may raise): the type T1 -> ... -> Tn -> res R; a pure function value passed for it is wrapped as fun x => Ok (f x);
+    `f(a1, ..., an)` on such a parameter is application, sequenced with bind like any call that can raise.  An
+    `np.ndarray` result stands for a 2-D array (a function value with another result is refused by the type check).
+  * private helpers (`def _name` at module level, methods `_name`): translated like any other definition, and
+    `#[global] Hint Unfold _name : py_private.` is emitted after them (as gen_network.py does) so that the proofs about
+    their callers can look through them without knowing their names.
+  * `sorted(L, key=F)`, L a list, F a PURE function value item -> str  ->  `sort_by_key F L`: the same stable sort as the
+    accepted `L.sort(key=...)`, on a copy.
+  * `list(X)` / `tuple(X)` with X = `filter(F, L)` | `map(F, L)` | a generator expression: consumed at once, in order
+    -> `filter F L` / `map F L` (filter_res / map_res, sequenced, when F can raise); builtins filter / map / sorted /
+    iter must not be shadowed (builtin_named; label_mapping.py defines its own `filter`).  `list(d)` of a dict: its keys.
+  * the set display `{a, b} == {c, d}`: the same `set2_eqb` as `set((a, b)) == set((c, d))`.
+  * a comprehension whose `if` AND element can both raise -> `comp_res c f L` (item by item: c(x1), f(x1), c(x2), ...).
+  * dict comprehension `{k: v for ...}` (str keys) -> `dict_of_items [(k, v) ...]`: items stored in order, a repeated key
+    keeps its first position and gets the last value.
+  * `d = {}` followed by statements that fill it with `d[k] = E` inside `for` loops (the loop shapes above, with the dict as
+    the ONE carried object) -> `@nil`, `dict_set d k E` (E, then k, evaluated; an existing key keeps its position).  The
+    value type is that of the first E stored (dry run).  Guards as for arrays: only a dict created by `{}` in the same
+    function, not read in the loop; once the dict has been read as a value (it may have been stored, e.g.
+    LabelMapping(d)), no further write is accepted.
+  * `raise X` / `raise X()`: X a builtin KeyError / ValueError, or the module's `class DistinctValues(Exception): ...`
+    (-> Err EOther: Model/Network.v has no constructor of its own) -> `Err e`; `-> None` functions: falling off the end is
+    `Ok tt` / `tt`.
+  * len(set(L)) for a list of ints -> natset_len (natset_of_list L).
+  * class LabelMapping and label_mapping.filter are TRANSLATED (they used to be compared with a pinned text), over the dict
+    of the object (`self.mapping` IS the object: type fmapping = list (label * nat)): __post_init__, __getitem__,
+    __call__ (`*labels: str` -> the list of the labels; result tuple[int, ...] -> list nat), keys, values, N, __iter__
+    (`return iter(X)`: the items of X in order; accepted only there), the generated __init__ (LabelMapping__new: store
+    the field, run __post_init__), and filter (inside label_mapping.py `m[k]`, `m.keys`, LabelMapping(d) are calls of
+    these translated members).  The OTHER modules keep seeing a mapper-built LabelMapping as its key list (type mapping,
+    primitives mapping_keys / mapping_values / mapping_N / mapping_item / mapping_index / mapping_filter[_res] /
+    fmapping_*); Theory/MatrixGenThm.v (section LabelMappingClass, label_mapping_filter_eq, ...) proves that each
+    translated member applied to `lm_dict m` (the dict {k: v for v, k in enumerate(m)}) IS that primitive, for keys
+    without duplicates.  Only the SHAPE of the class is fixed (Gen.label_mapping_class): a plain @dataclass, the one
+    field `mapping: dict[str, int]`, exactly the seven members above with their decorators — one more special method
+    (__contains__, __len__, __eq__, __setitem__, ...) would change the meaning of `in`, len, ==, ... behind the back of
+    the primitives."""
 import ast
 import os
 
@@ -56,7 +101,10 @@ from gen_network import (K, OPTK, LABEL, KIND, BOOL, NAT, ELEM, BRANCH, NET, UNI
                          TDict, TInt, VEC, par, app, Sig)
 
 MAT, MAPPER, FMAPPING, NSSM, NDARR = 'mat', 'mapper', 'fmapping', 'nssm', 'ndarr'
+LMOBJ = 'lmobj'          # a LabelMapping object seen from inside label_mapping.py: its dict (label -> index), Coq type fmapping
+NATSET = 'natset'        # set(<list of ints>), only observed through len
 BVEC = TList(BOOL)
+UNKNOWN = 'unknown'      # value type of a local `x = {}` before its first `x[k] = E`
 INFER = 'infer'          # a return annotation that does not fix the type (np.ndarray, complex, int, tuple[...])
 
 
@@ -77,12 +125,35 @@ def is_int(t):
     return isinstance(t, tuple) and t[0] == 'int'
 
 
+def TVTuple(t):
+    """tuple[T, ...]: a tuple of any length (*args, tuple(...)); a Coq list, but NOT a Python list: it can be built, returned,
+    iterated, measured (len) and converted with list(...), nothing else (tuple + list raises TypeError in Python)"""
+    return ('vtuple', t)
+
+
+def is_vtuple(t):
+    return isinstance(t, tuple) and t[0] == 'vtuple'
+
+
+def is_seq(t):
+    return (is_list(t) or is_vtuple(t)) and t[1] is not None
+
+
+def is_fun(t):
+    return isinstance(t, tuple) and t[0] == 'fun'
+
+
+def is_dict(t):
+    return isinstance(t, tuple) and t[0] == 'dict'
+
+
 def coq_ty(t):
-    simple = {MAT: 'arr2 K', MAPPER: 'network K -> mapping', FMAPPING: 'fmapping', NSSM: 'nssm K', NDARR: 'ndarr K'}
+    simple = {MAT: 'arr2 K', MAPPER: 'network K -> mapping', FMAPPING: 'fmapping', NSSM: 'nssm K', NDARR: 'ndarr K',
+              LMOBJ: 'fmapping', NATSET: 'list nat'}
     if isinstance(t, str) and t in simple:
         return simple[t]
     if isinstance(t, tuple):
-        if t[0] == 'list':
+        if t[0] in ('list', 'vtuple'):
             if t[1] is None:
                 raise Unsupported('a list whose element type is never determined')
             return f'list ({coq_ty(t[1])})'
@@ -114,50 +185,28 @@ SKIP_METHODS = {'NodalStateSpaceModel': {'_one_vector'}}
 NET_METHODS = ('branches_connected_to', 'nodes_connected_to', 'branches_between')
 # np.ndarray parameters: which of the array types
 PARAM_ARRAY = {('_row_for_potential', 'matrix'): MAT}
+# `raise X`: the builtin exceptions, and the module-level `class X(Exception): ...` named here (Model/Network.v has no
+# constructor of its own for DistinctValues: EOther)
 EXC = {'KeyError': 'EKeyError', 'ValueError': 'EValue'}
+EXC_LOCAL = {('label_mapping', 'DistinctValues'): 'EOther'}
 
 ANN = {'str': LABEL, 'complex': K, 'float': K, 'bool': BOOL, 'int': NAT, 'Network': NET, 'Branch': BRANCH,
        'list[str]': TList(LABEL), 'list[Branch]': TList(BRANCH), 'set[str]': SET, 'map.NetworkMapper': MAPPER,
        'map.SourceIndexMapper': MAPPER, 'map.LabelMapping': MAPPING, 'dict[str, float]': TDict(K),
-       'NodalStateSpaceModel': NSSM}
+       'NodalStateSpaceModel': NSSM, 'None': UNIT}
+# inside label_mapping.py a LabelMapping is the object itself (its dict)
+ANN_LABEL_MAPPING = {'LabelMapping': LMOBJ, 'tuple[int, ...]': TVTuple(NAT), 'list[int]': TList(NAT)}
 RET_INFER = {'complex', 'int', 'np.ndarray', 'tuple[np.ndarray, np.ndarray]',
              'tuple[np.ndarray, np.ndarray, np.ndarray, np.ndarray]'}
 
-# label_mapping.py: the class LabelMapping and the function filter are primitives; their text is pinned
-PINNED_LABELMAPPING = '''
-@dataclass
-class LabelMapping:
-    mapping: dict[str, int]
-
-    def __post_init__(self) -> None:
-        if len(set(self.mapping.values())) != len(self.mapping):
-            raise DistinctValues
-
-    def __getitem__(self, label: str) -> int:
-        return self.mapping[label]
-
-    def __call__(self, *labels: str) -> tuple[int, ...]:
-        return tuple(self[label] for label in labels)
-
-    @property
-    def keys(self) -> list[str]:
-        return list(self.mapping.keys())
-
-    @property
-    def values(self) -> list[int]:
-        return list(self.mapping.values())
-
-    @property
-    def N(self) -> int:
-        return len(self.mapping)
-
-    def __iter__(self):
-        return iter(self.mapping.keys())
-'''
-PINNED_FILTER = '''
-def filter(mapping: LabelMapping, filter_fcn: Callable[[str], bool]) -> LabelMapping:
-    return LabelMapping({k: mapping[k] for k in mapping.keys if filter_fcn(k)})
-'''
+# label_mapping.py: the class LabelMapping and the function filter are TRANSLATED (module py_label_mapping_m) over the dict of
+# the object, and Theory/MatrixGenThm.v proves each translated member equal to the primitive mapping_* / fmapping_* that the
+# other modules use for it.  What is fixed here is only the SHAPE of the class: a plain @dataclass with the one field
+# `mapping: dict[str, int]` and exactly these members (an added __contains__ / __len__ / __eq__ / __setitem__ ... would
+# change the meaning of `k in m`, len(m), ... behind the back of the primitives).
+LM_FIELD = ('mapping', 'dict[str, int]')
+LM_METHODS = {'__post_init__': (), '__getitem__': (), '__call__': (), '__iter__': (),
+              'keys': ('property',), 'values': ('property',), 'N': ('property',)}
 PINNED_SSM_FIELDS = [('A', 'np.ndarray'), ('B', 'np.ndarray'), ('C', 'np.ndarray'), ('D', 'np.ndarray')]
 NSSM_FIELDS = [('network', 'Network', NET), ('c_values', 'dict[str, float]', TDict(K)), ('l_values', 'dict[str, float]', TDict(K)),
                ('node_index_mapping', 'map.LabelMapping', MAPPING), ('voltage_source_index_mapping', 'map.LabelMapping', MAPPING),
@@ -171,10 +220,6 @@ def U(node, path, msg):
 
 def ident_ok(name):
     return name.isascii() and name.isidentifier() and "'" not in name
-
-
-def same_source(node, pinned):
-    return ast.dump(node) == ast.dump(ast.parse(pinned.strip()).body[0])
 
 
 class Src:
@@ -308,7 +353,7 @@ def wrap(pending, body):
 
 
 def new_state(name, ret, mode, infer=False):
-    return {'tmp': 0, 'lifted': 0, 'mode': mode, 'name': name, 'ret': ret, 'rets': [], 'infer': infer}
+    return {'tmp': 0, 'lifted': 0, 'mode': mode, 'name': name, 'ret': ret, 'rets': [], 'infer': infer, 'declared': None}
 
 
 def num_lit(n, node, env):
@@ -364,7 +409,25 @@ def join(a, b, node, env):
     raise U(node, env.path, f'branches of different types {a} / {b}')
 
 
-def ann_type(a, node, path, ret=False, owner=None):
+def callable_type(a, path, mod):
+    """Callable[[T1, ..., Tn], R] (typing.Callable) on a parameter: a function value that may raise, T1 -> ... -> Tn -> res R.
+    An np.ndarray result is a 2-D array (a function value with another result type is refused where it is passed)."""
+    if not (isinstance(a, ast.Subscript) and isinstance(a.value, ast.Name) and a.value.id == 'Callable'):
+        return None
+    if mod is None or mod.imports.get('Callable') != ('foreign', 'typing.Callable'):
+        raise U(a, path, 'Callable is not typing.Callable')
+    sl = a.slice
+    if not (isinstance(sl, ast.Tuple) and len(sl.elts) == 2 and isinstance(sl.elts[0], ast.List) and sl.elts[0].elts):
+        raise U(a, path, f'annotation {ast.unparse(a)} (Callable[[T1, ..., Tn], R] expected)')
+    args = [ann_type(x, x, path, mod=mod) for x in sl.elts[0].elts]
+    r = sl.elts[1]
+    ret = MAT if ast.unparse(r) == 'np.ndarray' else ann_type(r, r, path, mod=mod)
+    if any(is_fun(t) for t in args + [ret]) or ret == UNIT:
+        raise U(a, path, f'annotation {ast.unparse(a)} (higher-order / None-valued Callable)')
+    return TFun(args, ret, True)
+
+
+def ann_type(a, node, path, ret=False, owner=None, mod=None, param=False):
     if a is None:
         raise U(node, path, 'missing annotation')
     s = ast.unparse(a)
@@ -372,7 +435,13 @@ def ann_type(a, node, path, ret=False, owner=None):
         return INFER
     if s == 'np.ndarray' and owner in PARAM_ARRAY:
         return PARAM_ARRAY[owner]
-    if s not in ANN:
+    if param:
+        t = callable_type(a, path, mod)
+        if t is not None:
+            return t
+    if mod is not None and mod.key == 'label_mapping' and s in ANN_LABEL_MAPPING:
+        return ANN_LABEL_MAPPING[s]
+    if s not in ANN or (ANN[s] == UNIT and not ret):
         raise U(a, path, f'annotation {s}')
     return ANN[s]
 
@@ -386,6 +455,9 @@ def guarded(env, f):
 
 
 def tr(e, env, want=None):
+    if is_fun(want):
+        t, mon = fun_value(e, env, list(want[1]), want[2], monadic=want[3])
+        return t, want
     t, ty = tr_expr(e, env, want)
     return coerce(t, ty, want, e, env), (want if want is not None else ty)
 
@@ -420,6 +492,8 @@ def tr_expr(e, env, want=None):
         raise U(e, path, f'constant {v!r}')
     if isinstance(e, ast.Name):
         if e.id in env.vars:
+            if is_dict(env.vars[e.id][1]):
+                env.fresh_arrays.discard(e.id)      # a dict read as a value may be stored (LabelMapping(d)): no write after that
             return env.vars[e.id]
         return tr_global_value(e, env, want)
     if isinstance(e, ast.Attribute):
@@ -476,6 +550,14 @@ def tr_expr(e, env, want=None):
         return '[]', TList(None)
     if isinstance(e, ast.Dict) and not e.keys:
         return '[]', TList(None)
+    if isinstance(e, ast.DictComp):
+        # {k: v for ...}: the (k, v), key before value, item by item, stored one after the other (dict_of_items: a repeated
+        # key keeps its first position and gets the last value)
+        pair = ast.copy_location(ast.Tuple(elts=[e.key, e.value], ctx=ast.Load()), e)
+        t, ety = tr_comp(ast.copy_location(ast.ListComp(elt=pair, generators=e.generators), e), env)
+        if not (isinstance(ety, tuple) and ety[0] == 'pair' and ety[1] == LABEL) or is_int(ety[2]):
+            raise U(e, path, f'dict comprehension with items of type {ety}')
+        return app('dict_of_items', t), TDict(ety[2])
     if isinstance(e, (ast.ListComp, ast.SetComp)):
         t, ety = tr_comp(e, env)
         if isinstance(e, ast.SetComp):
@@ -559,7 +641,7 @@ def tr_iter(e, env):
         return app('mapping_keys', t), LABEL, t
     if isinstance(ty, tuple) and ty[0] == 'dict':
         return app('dict_keys', t), LABEL, None
-    if is_list(ty) and ty[1] is not None:
+    if is_seq(ty):
         k = None
         if isinstance(e, ast.Attribute) and e.attr == 'keys':
             m, mty = tr_expr(e.value, env)
@@ -608,7 +690,9 @@ def tr_comp(e, env, elt_want=None):
     body, bty = tr(e.elt, sub, elt_want)
     bp = sub.take()
     if cp and bp:
-        raise U(e, env.path, 'comprehension whose filter and element can both raise')
+        # filter and element are evaluated item by item (c(x1), f(x1), c(x2), ...): comp_res keeps that order
+        t = app('comp_res', f'(fun {pat} => {wrap(cp, app("Ok", c))})', f'(fun {pat} => {wrap(bp, app("Ok", body))})', src)
+        return env.lift(t, TList(bty), e)[0], bty
     if g.ifs:
         if cp:
             src, _ = env.lift(app('filter_res', f'(fun {pat} => {wrap(cp, app("Ok", c))})', src), TList(ety), e)
@@ -631,6 +715,85 @@ def tr_lambda(e, argtypes, env, want=None):
     if p:
         return f'(fun {bs} => {wrap(p, app("Ok", body))})', bty, True
     return f'(fun {bs} => {body})', bty, False
+
+
+def fun_value(e, env, argtypes, ret, monadic=None):
+    """a function value (only ever an ARGUMENT: of a Callable parameter, of sorted(key=), filter, map, label_mapping.filter)
+    of the type argtypes -> ret: a lambda, a Callable parameter, a nested def, a translated module-level function, a
+    translated method of self (`self.m`, a bound method).  -> (Coq term, it can raise).
+    monadic=True: the term has type argtypes -> res ret whatever the function (a pure one is wrapped in Ok);
+    monadic=False: a function that can raise is refused; monadic=None: as it comes."""
+    path = env.path
+    n = len(argtypes)
+
+    def done(term, mon, what):
+        if mon and monadic is False:
+            raise U(e, path, f'{what} can raise where a pure function is expected: {ast.unparse(e)}')
+        if monadic and not mon:
+            xs = ' '.join(f'x{i}' for i in range(n))
+            return f'(fun {xs} => Ok ({term} {xs}))', True
+        return term, mon
+
+    def check(sig, params, what):
+        if [t for _, t in params] != list(argtypes) or sig.ret != ret or getattr(sig, 'vararg', None):
+            raise U(e, path, f'{what} {ast.unparse(e)} has the type {[t for _, t in params]} -> {sig.ret}, '
+                             f'expected {list(argtypes)} -> {ret}')
+
+    if isinstance(e, ast.Lambda):
+        a = e.args
+        if a.vararg or a.kwarg or a.kwonlyargs or a.posonlyargs or a.defaults or len(a.args) != n:
+            raise U(e, path, f'lambda {ast.unparse(e)}')
+        sub = env.scope()
+        bs = ' '.join(sub.bind_var(x.arg, t, e) for x, t in zip(a.args, argtypes))
+        body, _ = tr(e.body, sub, ret)
+        p = sub.take()
+        if p and monadic is False:
+            raise U(e, path, f'lambda that can raise where a pure function is expected: {ast.unparse(e)}')
+        if p or monadic:
+            return f'(fun {bs} => {wrap(p, app("Ok", body))})', True
+        return f'(fun {bs} => {body})', False
+    if isinstance(e, ast.Name):
+        if e.id in env.vars:
+            t, ty = env.vars[e.id]
+            if not is_fun(ty) or list(ty[1]) != list(argtypes) or ty[2] != ret:
+                raise U(e, path, f'{e.id} of type {ty} used as a function {list(argtypes)} -> {ret}')
+            return done(t, ty[3], 'function parameter')
+        if e.id in env.localfuns:
+            sig = env.localfuns[e.id]
+            check(sig, sig.params, 'local function')
+            return done(sig.coqname, sig.monadic, 'local function')
+        if e.id in env.deferred:
+            raise U(e, path, f'internal: local function {e.id} not bound before use')
+        r = env.mod.imports.get(e.id)
+        if r and r[0] in ('name', 'func'):
+            sig = env.gen.global_sig(r[1], r[2], e, path)
+            check(sig, sig.params, 'function')
+            return done(f'({sig.coqname} K)', sig.monadic, 'function')
+        raise U(e, path, f'name {e.id} used as a function value')
+    if isinstance(e, ast.Attribute):
+        if isinstance(e.value, ast.Name) and e.value.id not in env.vars:
+            r = imported(e.value, env)
+            if r and r[0] == 'mod' and r[1]:
+                sig = env.gen.global_sig(r[1], e.attr, e, path)
+                check(sig, sig.params, 'function')
+                return done(f'({sig.coqname} K)', sig.monadic, 'function')
+            raise U(e, path, f'{ast.unparse(e)} used as a function value')
+        o, oty = tr_expr(e.value, env)
+        if oty in (NSSM, LMOBJ):                # a bound method: evaluating `self.m` has no effect
+            kind, sig = env.gen.nssm_member(e.attr, e, path) if oty == NSSM else env.gen.lm_member(e.attr, e, path)
+            if kind != 'method':
+                raise U(e, path, f'property {e.attr} used as a function value')
+            check(sig, sig.params[1:], 'method')
+            return done(f'({sig.coqname} K {par(o)})', sig.monadic, 'method')
+        raise U(e, path, f'attribute {e.attr} of a value of type {oty} used as a function value')
+    raise U(e, path, f'expression used as a function value: {ast.unparse(e)}')
+
+
+def builtin_named(f, env, *names):
+    """f is the bare name of one of the builtins `names`, not shadowed by a local, a nested def or a module-level name
+    (label_mapping.py defines its own `filter`)"""
+    return (isinstance(f, ast.Name) and f.id in names and f.id not in env.vars and f.id not in env.localfuns
+            and f.id not in env.deferred and f.id not in env.mod.imports)
 
 
 # ------------------------------------------------------------------ attributes, globals, calls
@@ -690,6 +853,15 @@ def tr_attribute(e, env, want=None):
         if a == 'keys':
             return app('fmapping_keys', o), TList(LABEL)
         raise U(e, path, f'filtered LabelMapping.{a}')
+    if oty == LMOBJ:                            # inside label_mapping.py: the members are the translated ones
+        if a == LM_FIELD[0]:
+            env.gen.label_mapping_class()
+            return o, TDict(NAT)
+        kind, sig = env.gen.lm_member(a, e, path)
+        if kind != 'property':
+            raise U(e, path, f'method {a} used as a value')
+        t = app(f'{sig.coqname} K', o)
+        return env.lift(t, sig.ret, e) if sig.monadic else (t, sig.ret)
     if oty == MAT:
         if a == 'T':
             return app('np_T', o), MAT
@@ -723,6 +895,8 @@ def match_args(call, names, env):
 
 
 def apply_sig(sig, call, env, first=None, local=False):
+    if getattr(sig, 'vararg', None):
+        raise U(call, env.path, f'call of {sig.coqname}, which takes *{sig.vararg}')
     pnames = [p for p, _ in sig.params]
     ptypes = dict(sig.params)
     given = {}
@@ -753,6 +927,9 @@ def tr_call(e, env, want=None):
             t, ty = env.vars[n]
             if ty == MAPPER and len(e.args) == 1 and not e.keywords:
                 return app(t, tr(e.args[0], env, NET)[0]), MAPPING
+            if is_fun(ty) and len(e.args) == len(ty[1]) and not e.keywords and not any(isinstance(a, ast.Starred) for a in e.args):
+                args = [tr(a, env, at)[0] for a, at in zip(e.args, ty[1])]       # a Callable parameter: application
+                return env.lift(app(t, *args), ty[2], e) if ty[3] else (app(t, *args), ty[2])
             raise U(e, path, f'call of the local value {n} of type {ty}')
         if n in env.localfuns:
             return apply_sig(env.localfuns[n], e, env, local=True)
@@ -823,15 +1000,17 @@ def tr_global_call(r, e, env, want):
         if set(vals) != set(rec['order']):
             raise U(e, path, 'Branch(...): every field must be given')
         return app(rec['ctor'], *[vals[p] for p in rec['order']]), BRANCH
-    if key == 'label_mapping' and name == 'filter':
-        gen.check_label_mapping()
-        if len(e.args) != 2 or e.keywords or not isinstance(e.args[1], ast.Lambda):
-            raise U(e, path, 'map.filter(m, lambda x: ...) expected')
+    if key == 'label_mapping' and name == 'filter' and env.mod.key != 'label_mapping':
+        gen.label_mapping_class()
+        if len(e.args) != 2 or e.keywords:
+            raise U(e, path, 'map.filter(m, f) expected')
         m, _ = tr(e.args[0], env, MAPPING)
-        lam, _, mon = tr_lambda(e.args[1], [LABEL], env, BOOL)
+        lam, mon = fun_value(e.args[1], env, [LABEL], BOOL)
         if mon:
             return env.lift(app('mapping_filter_res', m, lam), FMAPPING, e)
         return app('mapping_filter', m, lam), FMAPPING
+    if key == 'label_mapping' and name == 'LabelMapping' and env.mod.key == 'label_mapping':
+        return apply_sig(gen.lm_new(e, path), e, env)               # LabelMapping(d): the dataclass __init__ + __post_init__
     if key == 'state_space_model' and name == 'NodalStateSpaceModel':
         gen.check_nssm()
         vals = {p: tr(a, env, dict(NSSM_ALL)[p])[0] for p, a in match_args(e, [f for f, _ in NSSM_ALL], env)}
@@ -841,16 +1020,59 @@ def tr_global_call(r, e, env, want):
     return apply_sig(gen.global_sig(key, name, e, path), e, env)
 
 
+def tr_lazy(e, env):
+    """the argument of list(...) / tuple(...) that is consumed at once: filter(F, L) | map(F, L) | a generator expression
+    -> (Coq list term, element type), or None"""
+    if isinstance(e, ast.GeneratorExp):
+        return tr_comp(e, env)
+    if isinstance(e, ast.Call) and builtin_named(e.func, env, 'filter', 'map') and len(e.args) == 2 and not e.keywords \
+            and not any(isinstance(a, ast.Starred) for a in e.args):
+        # Python evaluates F, then L, and calls F on the items in order while list(...) / tuple(...) consumes the iterator
+        fnode, lnode = e.args
+        l, lty = tr_expr(lnode, env)
+        if not is_seq(lty):
+            raise U(e, env.path, f'{e.func.id}(f, L) over a value of type {lty}')
+        if e.func.id == 'filter':
+            f, mon = fun_value(fnode, env, [lty[1]], BOOL)
+            if mon:
+                return env.lift(app('filter_res', f, l), TList(lty[1]), e)[0], lty[1]
+            return app('filter', f, l), lty[1]
+        for rty in MAP_RESULTS:                  # the result type of the mapped function: that of the function itself
+            try:
+                f, mon = fun_value(fnode, env, [lty[1]], rty)
+            except Unsupported:
+                continue
+            if mon:
+                return env.lift(app('map_res', f, l), TList(rty), e)[0], rty
+            return app('map', f, l), rty
+        raise U(e, env.path, f'map(f, L): f is not a function value from {lty[1]} to one of {MAP_RESULTS}')
+    return None
+
+
+MAP_RESULTS = (NAT, LABEL, K, BOOL)
+
+
 def tr_builtin(n, e, env, want):
     path = env.path
+    a = e.args
+    if any(isinstance(x, ast.Starred) for x in a) or any(k.arg is None for k in e.keywords):
+        raise U(e, path, f'{n}(...) with * / ** arguments')
+    if n == 'sorted' and len(a) == 1 and len(e.keywords) == 1 and e.keywords[0].arg == 'key':
+        # sorted(L, key=f) = a copy of L after L.sort(key=f): the same stable sort
+        t, ty = tr_expr(a[0], env)
+        if not is_seq(ty):
+            raise U(e, path, f'sorted(..., key=...) of a value of type {ty}')
+        f, _ = fun_value(e.keywords[0].value, env, [ty[1]], LABEL, monadic=False)
+        return app('sort_by_key', f, t), TList(ty[1])
     if e.keywords:
         raise U(e, path, f'{n}(...) with keyword arguments')
-    a = e.args
     if n == 'len' and len(a) == 1:
         t, ty = tr_expr(a[0], env)
         if ty == SET:
             return app('set_len', t), NAT
-        if is_list(ty) or (isinstance(ty, tuple) and ty[0] == 'dict'):
+        if ty == NATSET:
+            return app('natset_len', t), NAT
+        if is_list(ty) or is_vtuple(ty) or is_dict(ty):
             return app('length', t), NAT
         raise U(e, path, f'len of a value of type {ty}')
     if n == 'sum' and len(a) == 1 and isinstance(a[0], (ast.GeneratorExp, ast.ListComp)):
@@ -859,13 +1081,32 @@ def tr_builtin(n, e, env, want):
     if n == 'any' and len(a) == 1 and isinstance(a[0], (ast.GeneratorExp, ast.ListComp)):
         t, _ = tr_comp(a[0], env, BOOL)
         return app('existsb', '(fun c => c)', t), BOOL
-    if n == 'list' and len(a) == 1:
+    if n in ('list', 'tuple') and len(a) == 1:
+        mk = TList if n == 'list' else TVTuple    # tuple(...): the items, as a tuple (see TVTuple)
+        lazy = tr_lazy(a[0], env)
+        if lazy is not None:
+            return lazy[0], mk(lazy[1])
         t, ty = tr_expr(a[0], env)
-        if is_list(ty):
-            return t, ty
-        raise U(e, path, f'list(...) of a value of type {ty}')
+        if is_list(ty) or is_vtuple(ty):
+            return t, mk(ty[1])
+        if is_dict(ty):
+            return app('dict_keys', t), mk(LABEL)         # list(d): the keys, as list(d.keys())
+        raise U(e, path, f'{n}(...) of a value of type {ty}')
+    if n == 'iter' and len(a) == 1:
+        # `return iter(X)` in __iter__: the items in iteration order (every `for` / `in` obtains a new iterator)
+        if env.state['name'] != '__iter__':
+            raise U(e, path, 'iter(...) outside __iter__ (an iterator object can be consumed only once)')
+        t, ty = tr_expr(a[0], env)
+        if is_seq(ty):
+            return t, TList(ty[1])
+        if is_dict(ty):
+            return app('dict_keys', t), TList(LABEL)
+        raise U(e, path, f'iter(...) of a value of type {ty}')
     if n == 'set' and len(a) == 1:
-        return app('set_of_list', tr(a[0], env, TList(LABEL))[0]), SET
+        t, ty = tr_expr(a[0], env)
+        if ty == TList(NAT):
+            return app('natset_of_list', t), NATSET
+        return app('set_of_list', coerce(t, ty, TList(LABEL), a[0], env)), SET
     raise U(e, path, f'call of {n}')
 
 
@@ -965,6 +1206,12 @@ def tr_subscript(e, env):
         return mapping_lookup(e.value, s, env, e)
     if oty == FMAPPING:
         return env.lift(app('fmapping_item', o, tr(s, env, LABEL)[0]), NAT, e)
+    if oty == LMOBJ:                            # m[k] inside label_mapping.py: the translated __getitem__
+        kind, sig = env.gen.lm_member('__getitem__', e, path)
+        if [t for _, t in sig.params[1:]] != [LABEL]:
+            raise U(e, path, 'LabelMapping.__getitem__ does not take one label')
+        t = app(f'{sig.coqname} K', o, tr(s, env, LABEL)[0])
+        return env.lift(t, sig.ret, e) if sig.monadic else (t, sig.ret)
     if isinstance(oty, tuple) and oty[0] == 'dict':
         return env.lift(app('dict_item', o, tr(s, env, LABEL)[0]), oty[1], e)
     if oty == MAT:
@@ -999,6 +1246,9 @@ def tr_subscript(e, env):
 
 
 def set_pair(x, env):
+    """set((a, b)) or the display {a, b}: the same two-element set"""
+    if isinstance(x, ast.Set) and len(x.elts) == 2 and not any(isinstance(y, ast.Starred) for y in x.elts):
+        return [tr(y, env, LABEL)[0] for y in x.elts]
     if isinstance(x, ast.Call) and isinstance(x.func, ast.Name) and x.func.id == 'set' and imported(x.func, env) is None \
             and x.func.id not in env.vars and len(x.args) == 1 and not x.keywords and isinstance(x.args[0], ast.Tuple) \
             and len(x.args[0].elts) == 2:
@@ -1017,7 +1267,7 @@ def tr_compare(e, env):
         if pl is not None:
             pr = set_pair(r, env)
             if pr is None:
-                raise U(e, path, 'set((a, b)) compared with something else than set((c, d))')
+                raise U(e, path, 'set((a, b)) / {a, b} compared with something else than set((c, d)) / {c, d}')
             return neg(app('set2_eqb', *(pl + pr))), BOOL
         a, at = tr_expr(l, env)
         b, bt = tr_expr(r, env)
@@ -1101,6 +1351,8 @@ def if_facts(test, env):
 def tr_stmts(stmts, env):
     path = env.path
     if not stmts:
+        if env.state['declared'] == UNIT:       # `-> None`: falling off the end returns None
+            return finish(env, 'tt', UNIT, None)
         raise Unsupported(f'{path}: {env.state["name"]}: control can reach the end of the function without `return`')
     st, rest = stmts[0], stmts[1:]
     if isinstance(st, ast.Expr) and isinstance(st.value, ast.Constant) and isinstance(st.value.value, str):
@@ -1122,6 +1374,25 @@ def tr_stmt(st, rest, env):
     path = env.path
     if isinstance(st, (ast.Return, ast.Raise)) and rest:
         raise U(rest[0], path, 'statement after return / raise')
+    if isinstance(st, ast.Raise):
+        x = st.exc
+        if isinstance(x, ast.Call) and not x.args and not x.keywords:
+            x = x.func                                   # raise X() is raise X
+        if st.cause is not None or not isinstance(x, ast.Name) or x.id in env.vars:
+            raise U(st, path, f'raise statement {ast.unparse(st)}')
+        r = env.mod.imports.get(x.id)
+        if r is None and x.id in EXC and x.id not in env.localfuns and x.id not in env.deferred:
+            exc = EXC[x.id]
+        elif r is not None and r[0] == 'class' and (r[1], r[2]) in EXC_LOCAL and gn.is_stub_body(env.mod.classes[r[2]].body) \
+                and [ast.unparse(b) for b in env.mod.classes[r[2]].bases] == ['Exception'] \
+                and not env.mod.classes[r[2]].decorator_list and not env.mod.classes[r[2]].keywords:
+            exc = EXC_LOCAL[(r[1], r[2])]
+        else:
+            raise U(st, path, f'raise of {x.id}: not an exception the model has a constructor for')
+        env.state['lifted'] += 1
+        if env.nolift or env.take():
+            raise U(st, path, 'internal: raise in a guarded position')
+        return f'Err {exc}'
     if isinstance(st, ast.Return):
         if st.value is None:
             raise U(st, path, 'bare return')
@@ -1157,6 +1428,8 @@ def tr_stmt(st, rest, env):
             v = env.bind_var(cv, env.vars[cv][1], tg)
             env.fresh_arrays.add(cv)
             return wrap(pend, f'let {v} := {new} in\n  {tr_stmts(rest, env)}')
+        if isinstance(st.value, ast.Dict) and not st.value.keys and isinstance(tg, ast.Name):
+            return tr_empty_dict(tg, rest, env)
         t, ty = tr_expr(st.value, env)
         pend = env.take()
         note_assignment(tg, st.value, ty, env)
@@ -1181,6 +1454,35 @@ def tr_stmt(st, rest, env):
     if isinstance(st, ast.Expr):
         return tr_sort(st, rest, env)
     raise U(st, path, f'statement {type(st).__name__}')
+
+
+class DictValueType(Exception):
+    """dry run of tr_empty_dict: the type of the first value stored into the dict"""
+
+    def __init__(self, ty):
+        self.ty = ty
+
+
+def tr_empty_dict(tg, rest, env):
+    """d = {} : a fresh dict local, filled by `d[k] = E` (dict_set) in a following loop.  Its value type is that of the first
+    E stored, found by a dry run of the rest of the block."""
+    st = env.state
+    saved = (st['tmp'], st['lifted'], list(st['rets']))
+    dry = env.child()
+    dry.bind_var(tg.id, TDict(UNKNOWN), tg)
+    dry.fresh_arrays.add(tg.id)
+    try:
+        tr_stmts(rest, dry)
+        raise U(tg, env.path, f'cannot type the variable {tg.id}: nothing is stored into this dict')
+    except DictValueType as d:
+        vty = d.ty
+    st['tmp'], st['lifted'], st['rets'] = saved[0], saved[1], saved[2]
+    if is_int(vty) or vty in (UNKNOWN, TList(None)):
+        raise U(tg, env.path, f'cannot type the values of the dict {tg.id}')
+    v = env.bind_var(tg.id, TDict(vty), tg)
+    env.fresh_arrays.add(tg.id)
+    env.fresh_lists.discard(tg.id)
+    return f'let {v} := @nil (label * {coq_ty(vty)}) in\n  {tr_stmts(rest, env)}'
 
 
 def note_assignment(tg, value, ty, env):
@@ -1309,10 +1611,11 @@ def carried_of(stmts, env):
     if len(set(ts)) != 1:
         raise U(stmts[0], env.path, f'loop body assigning into {sorted(set(ts))} (exactly one array expected)')
     cv = ts[0]
-    if cv not in env.vars or env.vars[cv][1] not in (MAT, VEC):
-        raise U(stmts[0], env.path, f'{cv} is not a local array')
+    if cv not in env.vars or not (env.vars[cv][1] in (MAT, VEC) or is_dict(env.vars[cv][1])):
+        raise U(stmts[0], env.path, f'{cv} is not a local array / dict')
     if cv not in env.fresh_arrays:
-        raise U(stmts[0], env.path, f'{cv} is written into but was not created by np.zeros in this function (it may be shared)')
+        raise U(stmts[0], env.path, f'{cv} is written into but was not created by np.zeros / {{}} in this function, or was used '
+                                    f'as a value since (it may be shared)')
     reads = sum(1 for s in stmts for n in ast.walk(s) if isinstance(n, ast.Name) and n.id == cv)
     if reads != len(ts):
         raise U(stmts[0], env.path, f'the array {cv} is read while it is being filled')
@@ -1322,6 +1625,13 @@ def carried_of(stmts, env):
 def tr_array_set(tg, value, env, cv):
     """M[i, j] = E | M[i][j] = E | M[m(a, b)] = E | v[i] = E   -> the new array (right-hand side evaluated first)"""
     old, cty = env.vars[cv]
+    if is_dict(cty):                          # d[k] = E on a fresh dict: E, then k, are evaluated; the key keeps its position
+        if isinstance(tg.value, ast.Subscript):
+            raise U(tg, env.path, f'assignment target {ast.unparse(tg)}')
+        if cty[1] == UNKNOWN:
+            raise DictValueType(tr_expr(value, env)[1])
+        v, _ = tr(value, env, cty[1])
+        return app('dict_set', old, tr(tg.slice, env, LABEL)[0], v)
     v, _ = tr(value, env, K)
     s = tg.slice
     if isinstance(tg.value, ast.Subscript):
@@ -1422,9 +1732,11 @@ def tr_for_term(st, env, cv):
 
 
 # ------------------------------------------------------------------ functions
-def fun_params(fdef, path, self_ty=None):
+def fun_params(fdef, path, self_ty=None, mod=None, vararg_ok=False):
+    """-> [(name, type)].  `*labels: str` (only where vararg_ok: the methods of LabelMapping) is a last parameter holding the
+    list of the extra positional arguments"""
     a = fdef.args
-    if a.vararg or a.kwarg or a.kwonlyargs or a.posonlyargs:
+    if a.kwarg or a.kwonlyargs or a.posonlyargs or (a.vararg and not vararg_ok):
         raise U(fdef, path, f'{fdef.name}: star / keyword-only / positional-only parameters')
     params = []
     for i, x in enumerate(a.args):
@@ -1433,7 +1745,13 @@ def fun_params(fdef, path, self_ty=None):
                 raise U(fdef, path, f'{fdef.name}: first parameter of a method is not self')
             params.append((x.arg, self_ty))
         else:
-            params.append((x.arg, ann_type(x.annotation, x, path, owner=(fdef.name, x.arg))))
+            params.append((x.arg, ann_type(x.annotation, x, path, owner=(fdef.name, x.arg), mod=mod, param=True)))
+    if a.vararg:
+        if a.defaults:
+            raise U(fdef, path, f'{fdef.name}: default values together with *{a.vararg.arg}')
+        params.append((a.vararg.arg, TVTuple(ann_type(a.vararg.annotation, a.vararg, path, mod=mod))))
+    if len({p for p, _ in params}) != len(params):
+        raise U(fdef, path, f'{fdef.name}: parameter named twice')
     return params
 
 
@@ -1452,11 +1770,15 @@ def infer_ret(rets, declared, fdef, env):
 
 def translate_body(fdef, mk_env, declared):
     """two passes: (1) infer the result type and whether anything can raise, (2) generate"""
-    env = mk_env(new_state(fdef.name, None, 'monadic', infer=True))
+    st = new_state(fdef.name, None, 'monadic', infer=True)
+    st['declared'] = declared
+    env = mk_env(st)
     tr_stmts(fdef.body, env)
     ret = infer_ret(env.state['rets'], declared, fdef, env)
     mode = 'monadic' if env.state['lifted'] else 'pure'
-    env = mk_env(new_state(fdef.name, ret, mode))
+    st = new_state(fdef.name, ret, mode)
+    st['declared'] = declared
+    env = mk_env(st)
     body = tr_stmts(fdef.body, env)
     return body, ret, mode == 'monadic'
 
@@ -1464,8 +1786,8 @@ def translate_body(fdef, mk_env, declared):
 def tr_nested_def(fdef, env):
     if fdef.decorator_list or fdef.args.defaults:
         raise U(fdef, env.path, 'decorated nested function / nested function with default values')
-    params = fun_params(fdef, env.path)
-    declared = ann_type(fdef.returns, fdef, env.path, ret=True)
+    params = fun_params(fdef, env.path, mod=env.mod)
+    declared = ann_type(fdef.returns, fdef, env.path, ret=True, mod=env.mod)
     binders = []
 
     def mk_env(state):
@@ -1488,7 +1810,7 @@ class Gen:
         self.g = gn.Gen(src)            # the base layer: signatures of everything gen_network.py translates
         self.g.run()
         self.mods = {k: Src(k, src) for k in ('network', 'label_mapping', 'node_analysis', 'state_space_model', 'sp')}
-        self.coqmods = ['py_network_m', 'py_node_analysis', 'py_state_space']
+        self.coqmods = ['py_label_mapping_m', 'py_network_m', 'py_node_analysis', 'py_state_space']
         self.out = {c: [] for c in self.coqmods}
         self.sigs, self.busy, self.checked = {}, [], set()
 
@@ -1525,7 +1847,7 @@ class Gen:
         raise U(node, path, f'reference to {key}.{name}')
 
     # ---------------- functions and methods
-    def translate_def(self, mod, fdef, coqmod, shortname, self_ty=None, allowed_decorators=()):
+    def translate_def(self, mod, fdef, coqmod, shortname, self_ty=None, allowed_decorators=(), vararg_ok=False):
         k = (coqmod, shortname)
         if k in self.sigs:
             return self.sigs[k]
@@ -1536,7 +1858,7 @@ class Gen:
             for d in fdef.decorator_list:
                 if not (isinstance(d, ast.Name) and d.id in allowed_decorators):
                     raise U(fdef, mod.path, f'decorator {ast.unparse(d)}')
-            params = fun_params(fdef, mod.path, self_ty)
+            params = fun_params(fdef, mod.path, self_ty, mod=mod, vararg_ok=vararg_ok)
             defaults = {}
             ds = fdef.args.defaults
             for (p, ty), d in zip(params[len(params) - len(ds):], ds):
@@ -1544,7 +1866,10 @@ class Gen:
                 t, _ = tr(d, Env(self, mod, new_state(fdef.name, None, 'pure')), ty)
                 self.emit(coqmod, f'Definition {dn} (K : fops) : {coq_ty(ty)} := {t}.')
                 defaults[p] = f'{coqmod}.{dn}'
-            declared = ann_type(fdef.returns, fdef, mod.path, ret=True)
+            if fdef.returns is None and fdef.name == '__iter__' and self_ty is not None:
+                declared = INFER                # `def __iter__(self):` carries no annotation in the source
+            else:
+                declared = ann_type(fdef.returns, fdef, mod.path, ret=True, mod=mod)
             binders = []
 
             def mk_env(state):
@@ -1556,7 +1881,10 @@ class Gen:
             cty = f'res ({coq_ty(ret)})' if monadic else coq_ty(ret)
             self.emit(coqmod, f'(* {os.path.basename(mod.path)}:{fdef.lineno} {fdef.name} *)\n'
                               f'Definition {shortname} (K : fops) {" ".join(binders)} : {cty} :=\n  {body}.')
+            if gn.is_private(fdef.name):         # a private helper: the proofs about its callers look through it
+                self.emit(coqmod, f'#[global] Hint Unfold {shortname} : py_private.')
             sig = Sig(f'{coqmod}.{shortname}', params, ret, monadic, defaults)
+            sig.vararg = fdef.args.vararg.arg if fdef.args.vararg else None
             self.sigs[k] = sig
             return sig
         finally:
@@ -1581,19 +1909,70 @@ class Gen:
             raise U(node, path, f'Network has no method {name}')
         return self.translate_def(mod, ms[name], 'py_network_m', f'Network_{name}', self_ty=NET)
 
-    # ---------------- pinned classes
-    def check_label_mapping(self):
-        if 'lm' in self.checked:
-            return
-        self.checked.add('lm')
+    # ---------------- label_mapping.py: class LabelMapping and filter, translated over the dict of the object
+    def label_mapping_class(self):
+        """the shape of the class the primitives mapping_* stand for (see LM_FIELD / LM_METHODS); -> its methods"""
         mod = self.mods['label_mapping']
-        if 'LabelMapping' not in mod.classes or not same_source(mod.classes['LabelMapping'], PINNED_LABELMAPPING):
-            raise Unsupported(f'{mod.path}: class LabelMapping differs from the text its primitives (mapping_keys, mapping_values, '
-                              f'mapping_N, mapping_item, iteration, call) were written for')
-        if 'filter' not in mod.funcs or not same_source(mod.funcs['filter'], PINNED_FILTER):
-            raise Unsupported(f'{mod.path}: function filter differs from the text the primitive mapping_filter was written for')
-        if mod.imports.get('dataclass') != ('foreign', 'dataclasses.dataclass') or mod.imports.get('Callable') != ('foreign', 'typing.Callable'):
-            raise Unsupported(f'{mod.path}: dataclass / Callable are not the standard ones')
+        if 'lm' in self.checked:
+            return self.class_methods(mod, 'LabelMapping')
+        c = mod.classes.get('LabelMapping')
+        if c is None:
+            raise Unsupported(f'{mod.path}: class LabelMapping not found')
+        if [ast.unparse(d) for d in c.decorator_list] != ['dataclass'] or c.bases or c.keywords \
+                or mod.imports.get('dataclass') != ('foreign', 'dataclasses.dataclass'):
+            raise U(c, mod.path, 'LabelMapping is not a plain @dataclass without base classes')
+        fields = []
+        for x in c.body:
+            if isinstance(x, ast.AnnAssign) and isinstance(x.target, ast.Name) and x.value is None:
+                fields.append((x.target.id, ast.unparse(x.annotation)))
+            elif not (isinstance(x, ast.FunctionDef) or (isinstance(x, ast.Expr) and isinstance(x.value, ast.Constant))):
+                raise U(x, mod.path, f'statement {type(x).__name__} in class LabelMapping')
+        if fields != [LM_FIELD]:
+            raise U(c, mod.path, f'fields {fields} of LabelMapping: the one field {LM_FIELD} is expected')
+        ms = self.class_methods(mod, 'LabelMapping')
+        if set(ms) != set(LM_METHODS):
+            raise U(c, mod.path, f'members {sorted(ms)} of LabelMapping: exactly {sorted(LM_METHODS)} are expected (another special '
+                                 f'method would change the meaning of `in`, len, ==, ... behind the primitives mapping_*)')
+        for n, f in ms.items():
+            if tuple(ast.unparse(d) for d in f.decorator_list) != LM_METHODS[n]:
+                raise U(f, mod.path, f'decorators of LabelMapping.{n}')
+        if mod.imports.get('LabelMapping') != ('class', 'label_mapping', 'LabelMapping'):
+            raise U(c, mod.path, 'the name LabelMapping is rebound')
+        self.checked.add('lm')
+        return ms
+
+    def lm_member(self, name, node, path):
+        ms = self.label_mapping_class()
+        mod = self.mods['label_mapping']
+        if name not in ms:
+            raise U(node, path, f'LabelMapping has no member {name}')
+        sig = self.translate_def(mod, ms[name], 'py_label_mapping_m', f'LabelMapping_{name}', self_ty=LMOBJ,
+                                 allowed_decorators=('property',), vararg_ok=True)
+        return ('property' if LM_METHODS[name] else 'method'), sig
+
+    def lm_new(self, node, path):
+        """LabelMapping(d): the __init__ a dataclass generates stores the field and calls __post_init__()"""
+        k = ('py_label_mapping_m', 'LabelMapping__new')
+        if k not in self.sigs:
+            _, post = self.lm_member('__post_init__', node, path)
+            if post.ret != UNIT or len(post.params) != 1:
+                raise U(node, path, 'LabelMapping.__post_init__ is not (self) -> None')
+            body = f"bind ({post.coqname} K mapping') (fun _ => Ok mapping')" if post.monadic else "Ok mapping'"
+            self.emit('py_label_mapping_m', "(* the generated __init__: self.mapping = mapping; self.__post_init__() *)\n"
+                                            f"Definition LabelMapping__new (K : fops) (mapping' : list (label * nat)) : res (fmapping) :=\n  {body}.")
+            self.sigs[k] = Sig('py_label_mapping_m.LabelMapping__new', [('mapping', TDict(NAT))], LMOBJ, True)
+        return self.sigs[k]
+
+    def lm_filter(self):
+        mod = self.mods['label_mapping']
+        if 'filter' not in mod.funcs or mod.imports.get('filter') != ('func', 'label_mapping', 'filter'):
+            raise Unsupported(f'{mod.path}: function filter not found')
+        if mod.imports.get('Callable') != ('foreign', 'typing.Callable'):
+            raise Unsupported(f'{mod.path}: Callable is not typing.Callable')
+        sig = self.translate_def(mod, mod.funcs['filter'], 'py_label_mapping_m', 'label_mapping_filter')
+        if [t for _, t in sig.params] != [LMOBJ, TFun([LABEL], BOOL, True)] or sig.ret != LMOBJ or sig.defaults:
+            raise U(mod.funcs['filter'], mod.path, 'filter is not (LabelMapping, Callable[[str], bool]) -> LabelMapping')
+        return sig
 
     def check_nssm(self):
         if 'nssm' in self.checked:
@@ -1643,7 +2022,11 @@ class Gen:
 
     # ---------------- driver
     def run(self):
-        self.check_label_mapping()
+        lm = self.mods['label_mapping']
+        for m in self.label_mapping_class():
+            self.lm_member(m, lm.classes['LabelMapping'], lm.path)
+        self.lm_new(lm.classes['LabelMapping'], lm.path)
+        self.lm_filter()
         net = self.mods['network']
         for m in NET_METHODS:
             self.net_method(m, net.tree, net.path)
@@ -1665,8 +2048,9 @@ class Gen:
 
     def text(self):
         L = ['(* GENERATED by tools/gen_matrix.py from /repo/src/CircuitCalculator/Network — do not edit.',
-             '   NodalAnalysis/node_analysis.py, NodalAnalysis/state_space_model.py and the list-valued methods of Network',
-             '   (network.py): a compositional image of the Python source over the data types of Model/Network.v, the',
+             '   NodalAnalysis/node_analysis.py, NodalAnalysis/state_space_model.py, the list-valued methods of Network',
+             '   (network.py) and class LabelMapping / filter of NodalAnalysis/label_mapping.py (over the dict of the',
+             '   object): a compositional image of the Python source over the data types of Model/Network.v, the',
              '   definitions of Gen/NetworkGen.v and the primitives of Model/NetworkPrims.v, Model/MatrixPrims.v.',
              "   Python local x is x'; t1, t2, ... are the values of sub-expressions that can raise, bound in evaluation order;",
              '   `for` loops filling an array are fold_left / for_res over the iterated list.',
